@@ -811,6 +811,14 @@ func (e *SpecEnv) evalCall(x SCall) SV {
 		// the value handed to the i-th successful xml.Marshal/MarshalIndent call (ghost sequence)
 		_, seq, _ := marshalHeaps(e.G)
 		return SV{Term: fmt.Sprintf("(select %s %s)", e.Cur.Heap(seq), arg(0).Term), Typ: types.NewInterfaceType(nil, nil)}
+	case "marshalTried":
+		// number of xml.Marshal/MarshalIndent calls so far, accepted or refused (ghost)
+		n, _ := marshalTryHeaps(e.G)
+		return SV{Term: e.Cur.Heap(n), Typ: intT}
+	case "marshalTriedAt":
+		// the value handed to the i-th xml.Marshal/MarshalIndent call, accepted or refused (ghost sequence)
+		_, seq := marshalTryHeaps(e.G)
+		return SV{Term: fmt.Sprintf("(select %s %s)", e.Cur.Heap(seq), arg(0).Term), Typ: types.NewInterfaceType(nil, nil)}
 	case "marshalOut":
 		// the bytes returned by the i-th successful xml.Marshal/MarshalIndent call (ghost sequence)
 		_, _, out := marshalHeaps(e.G)
